@@ -1,6 +1,7 @@
 package main
 
 import (
+	"reflect"
 	"fmt"
 	"math/rand"
 
@@ -125,21 +126,29 @@ func init() {
 					continue
 				}
 				d := bt[g.ID][0]
-				// expected label directives of g's chain
-				want := map[string]string{}
-				wantMeta := map[string]string{}
-				for li := g.Layer; li < len(t.Layers); li++ {
-					for k, v := range t.Layers[li].Labels {
-						want[k] = v
-					}
-					for k, v := range t.Layers[li].MetaLabels {
+				// expected label directives of g's chain, innermost layer first; inside one layer the `labels` entries are
+				// applied before commonLabels, so commonLabels wins on a shared key
+				want := map[string]string{}     // keys written by commonLabels (metadata, selectors, templates)
+				wantMeta := map[string]string{} // final metadata.labels entries from any label directive
+				wantTmpl := map[string]string{} // final template entries
+				for _, li := range t.Chain(g.Layer) {
+					L := t.Layers[li]
+					for k, v := range L.MetaLabels {
 						wantMeta[k] = v
+						if L.MetaLabelsTmpl {
+							wantTmpl[k] = v
+						}
+					}
+					for k, v := range L.Labels {
+						want[k] = v
+						wantMeta[k] = v
+						wantTmpl[k] = v
 					}
 				}
 				ml := strMap(mustGet(d, "metadata", "labels"))
-				for k, v := range want {
+				for k, v := range wantMeta {
 					if ml[k] != v {
-						o.fail("label-missing-in-metadata", fmt.Sprintf("%s %s lacks label %s=%s in metadata", g.Kind, g.Name, k, v), cs, t.Describe(), ml, want)
+						o.fail("label-missing-in-metadata", fmt.Sprintf("%s %s: metadata label %s is %q, the directives give %q", g.Kind, g.Name, k, ml[k], v), cs, t.Describe(), ml, wantMeta)
 					}
 				}
 				if isWorkload(g.Kind) && g.Kind != "Pod" {
@@ -148,18 +157,31 @@ func init() {
 					if hasSel && !subsetOf(sel, pl) {
 						o.fail("selector-not-matching-own-template", fmt.Sprintf("%s %s selector %v does not match its own pod template labels %v", g.Kind, g.Name, sel, pl), cs, t.Describe(), sel, pl)
 					}
-					for k, v := range want {
+					for k, v := range wantTmpl {
 						if pl[k] != v {
-							o.fail("label-missing-in-template", fmt.Sprintf("%s %s lacks label %s=%s in the pod template", g.Kind, g.Name, k, v), cs, t.Describe(), pl, want)
+							o.fail("label-missing-in-template", fmt.Sprintf("%s %s: pod template label %s is %q, the directives give %q", g.Kind, g.Name, k, pl[k], v), cs, t.Describe(), pl, wantTmpl)
 						}
 					}
-					// labels without includeSelectors never alter a selector
+					// the selector is its input plus the commonLabels keys: labels without includeSelectors never alter it
 					inSel, _ := selectorOf(g.Kind, g.Obj)
-					for k := range wantMeta {
-						if _, was := inSel[k]; !was {
-							if _, is := sel[k]; is && want[k] == "" {
-								o.fail("plain-label-in-selector", fmt.Sprintf("%s %s selector gained key %s from a labels entry without includeSelectors", g.Kind, g.Name, k), cs, t.Describe(), sel, inSel)
+					if hasSel {
+						exp := map[string]string{}
+						for k, v := range inSel {
+							exp[k] = v
+						}
+						for k, v := range want {
+							exp[k] = v
+						}
+						if !reflect.DeepEqual(exp, sel) {
+							cls := "selector-differs-from-directives"
+							for k := range wantMeta {
+								if _, isCommon := want[k]; !isCommon || want[k] != sel[k] {
+									if sel[k] == wantMeta[k] && sel[k] != exp[k] {
+										cls = "plain-label-in-selector"
+									}
+								}
 							}
+							o.fail(cls, fmt.Sprintf("%s %s selector is %v, input plus commonLabels give %v", g.Kind, g.Name, sel, exp), cs, t.Describe(), sel, exp)
 						}
 					}
 				}
@@ -177,6 +199,23 @@ func init() {
 					plIn, _ := podLabelsOf(w.Kind, w.Obj)
 					if len(selIn) == 0 || !subsetOf(selIn, plIn) {
 						continue
+					}
+					if w.Kind == "Pod" {
+						// a bare Pod's labels ARE its metadata labels: a labels entry without includeSelectors that overrides a
+						// commonLabels key changes them by request (self-inflicted); such chains are not compared
+						over := false
+						for _, li := range t.Chain(w.Layer) {
+							for k := range t.Layers[li].MetaLabels {
+								for _, lj := range t.Chain(w.Layer) {
+									if _, both := t.Layers[lj].Labels[k]; both {
+										over = true
+									}
+								}
+							}
+						}
+						if over {
+							continue
+						}
 					}
 					selOut, _ := selectorOf(s.Kind, bt[s.ID][0])
 					plOut, _ := podLabelsOf(w.Kind, bt[w.ID][0])
